@@ -177,7 +177,8 @@ def run(ctx):
                         if r.random() < 0.3:
                             sb, pb = passgen.mutate_pass(r, pb, sb)
                 pl.append("pass %d %d %s %s %s" % (sb, pt, cok[pt], " ".join(lims), pb.hex() or "-"))
-            lib.correspond(ctx, res, "h_pass", "loader", pl, comp_holds, exe_args=[bfp], per_chunk=200,
+            # (line_timeout: the model's column map is a list – a range of 65 000 glyphs takes it a minute)
+            lib.correspond(ctx, res, "h_pass", "loader", pl, comp_holds, exe_args=[bfp], per_chunk=200, line_timeout=900,
                            classify=lambda l, i: "pass:" + ("fault" if i.startswith(("fault", "CRASH")) else i.split()[0]),
                            rule="Pass::readPass, all of it: passes of shipped and synthesised fonts (the font's own and others'), intact and mutated, and passes built from generated rule records and code with a sort key, a pre-context, a code offset, the pre-context bounds or a rule-map entry changed, loaded with the Silf/Face of %s; the verdict (the loader's error code, or the header numbers, columns, state tables and per rule its lengths and the sizes of its two programs) must be the model's" % bf)
         # Silf::readClassMap on well-formed and mutated class maps (both offset widths), then getClassGlyph / findClassIndex on
@@ -218,7 +219,7 @@ def run(ctx):
                     sub = t[off:end] if r.random() < 0.8 else t[off: off + r.randrange(0, 80)]
                     v = int.from_bytes(t[0:4], "big") if len(t) >= 4 else 0x00020000
                     hl2.append("silf %d %s %s %s %s %s" % (v, ng, na, hb, nf, sub.hex() or "-"))
-            lib.correspond(ctx, res, "h_pass", "loader", hl2, comp_holds, exe_args=[fp], per_chunk=100,
+            lib.correspond(ctx, res, "h_pass", "loader", hl2, comp_holds, exe_args=[fp], per_chunk=100, line_timeout=900,
                            classify=lambda l, i: l.split()[0] + ":" + ("fault" if i.startswith(("fault", "CRASH")) else " ".join(x for x in i.split()[:2] if not x[:1].isdigit())),
                            rule="Face::readGraphite / Silf::readGraphite: the Silf table of %s (%d bytes), intact and mutated; the verdict (the loader's error code from whichever part of the table, sub-table, class map, pass, rule record or bytecode gave it, or the numbers of the accepted sub-tables) must be the model's" % (pathlib.Path(fp).name, len(st)))
         # the code loader: Machine::Code's loading constructor on the constraint and action code of shipped fonts (intact and with a
@@ -275,6 +276,42 @@ def run(ctx):
             lib.correspond(ctx, res, "h_pass", "loader", gl, comp_holds, exe_args=[bfp], per_chunk=60, line_timeout=120,
                            classify=lambda l, i: "glyphs:%s:%s" % ("preload" if l.split()[1] == "2" else "lazy", "fault" if i.startswith(("fault", "CRASH")) else i.split()[0]),
                            rule="GlyphCache / Loader / sparse on the glyph count of %s: Gloc and Glat of the font or generated ones, intact and mutated; per queried glyph the chunks, values and 16 look-ups of its attributes and its sub-box count must be the model's (the engine's chunk width, 48 keys, is checked by the harness)" % bf)
+        # the loader as a whole at the public API: gr_make_face_with_ops on small shipped fonts with their Silf, Gloc/Glat, Feat or Sill
+        # table mutated (all five served from exact-size buffers), against the composed model loadFace: NULL or the face's numbers
+        for bf in ("general.ttf", "small.ttf", "grtest1gr.ttf", "PigLatinBenchmark_v3.ttf", "Padauk.ttf"):
+            bfp = str(lib.REPO / "tests" / "fonts" / bf)
+            try:
+                tb = sfnt.read_tables(pathlib.Path(bfp))
+                ngg = struct.unpack(">H", tb["maxp"][4:6])[0]
+            except Exception:
+                continue
+            an = passgen.silf_anatomy(tb["Silf"])
+            big = len(tb["Silf"]) > 40000
+            fl = []
+            for k in range((40 if q else 600) if big else (150 if q else 6000)):
+                tabs = {x: tb.get(x, b"") for x in ("Silf", "Gloc", "Glat", "Feat", "Sill")}
+                if k:
+                    which = r.choice(["Silf", "Silf", "Gloc", "Feat", "Sill", "none"])
+                    if which == "Silf" and an:
+                        tabs["Silf"] = passgen.mutate_silf(r, tabs["Silf"], an)
+                    elif which == "Gloc":
+                        tabs["Gloc"], tabs["Glat"] = passgen.mutate_glyph_tables(r, tabs["Gloc"], tabs["Glat"])
+                    elif which in ("Feat", "Sill") and tabs[which]:
+                        bb = bytearray(tabs[which])
+                        m = r.random()
+                        if m < 0.3:
+                            bb = bb[: r.randrange(0, len(bb) + 1)]
+                        elif m < 0.4:
+                            bb = bytearray()
+                        else:
+                            for _ in range(r.randrange(1, 4)):
+                                i = r.randrange(len(bb))
+                                bb[i] = r.choice([0, 1, 0xFF, bb[i] ^ (1 << r.randrange(8)), r.randrange(256)])
+                        tabs[which] = bytes(bb)
+                fl.append("face %d 48 %d %s" % (r.choice([0, 0, 2, 6]), ngg, " ".join((tabs[x].hex() or "-") for x in ("Silf", "Gloc", "Glat", "Feat", "Sill"))))
+            lib.correspond(ctx, res, "h_pass", "loader", fl, comp_holds, exe_args=[bfp], per_chunk=60, line_timeout=900,
+                           classify=lambda l, i: "face:" + ("fault" if i.startswith(("fault", "CRASH")) else i.split()[0]),
+                           rule="gr_make_face_with_ops on %s with one of its five Graphite tables mutated (exact-size buffers), options 0/2/6: NULL or the numbers of the face (glyphs, features, languages, passes per sub-table) must be what the composed model loadFace says" % bf)
         exe = lib.build_harness("h_seg")
         fonts, hl, meta = [], [], []
 
